@@ -27,6 +27,8 @@ CONSTANTS
  MirrorOn = %(mirror)s
  MirCap = %(mircap)d
  MirrorPutsOwn = %(mirown)s
+ MirrorDead = %(mirdead)s
+ MirrorBlocks = %(mirblocks)s
 INVARIANTS NoPanic PublishedIsOwn AtMostOnce NoUseAfterPut CountsSane CountsExact ExactlyOnceIfData NoPhantom MirrorIsCopy MirrorBufHeld
 CHECK_DEADLOCK FALSE
 """
@@ -34,9 +36,24 @@ PROTOS = ["ipfix", "netflow9", "netflow5", "sflow"]
 
 
 def pipe_cfg(**kw):
-    d = dict(dg="MCDgrams", bufs="b1, b2, b3", early="FALSE", alias="FALSE", close="TRUE", retire=0, drops="FALSE", mirror="FALSE", mircap=1, mirown="FALSE")
-    d.update(kw)
+    d = dict(dg="MCDgrams", bufs="b1, b2, b3", early="FALSE", alias="FALSE", close="TRUE", retire=0, drops="FALSE", mirror="FALSE", mircap=1, mirown="FALSE", mirdead="FALSE", mirblocks="FALSE")
+    d.update({k: v for k, v in kw.items() if k != "workers"})
     return PIPE_CFG % d
+
+
+def live_cfg(**kw):
+    """the same constants under SPECIFICATION LiveSpec (fairness, no shutdown) with the temporal property Drains"""
+    c = pipe_cfg(**kw).replace("SPECIFICATION Spec", "SPECIFICATION LiveSpec")
+    head = c[:c.index("INVARIANTS")]
+    if "workers" in kw:
+        head = head.replace(" Workers = {w1, w2}", " Workers = {%s}" % kw["workers"])
+    return head + "PROPERTIES Drains\nCHECK_DEADLOCK FALSE\n"
+
+
+def pipeline_liveness(ctx):
+    """every datagram that arrives is received and, when it carries data, published - as long as the receive loop, the
+    workers and the consumer keep taking steps (LiveSpec: strong fairness for the read, weak for the rest; no shutdown)"""
+    ctx.tlc_model("PipelineMC", "live.cfg", files={"live.cfg": live_cfg()}, timeout=900, workers=8)
 
 
 def pipeline_model(ctx, thorough, retire=False):
@@ -323,6 +340,7 @@ def check(ctx, want="C12"):
         ctx.assumptions += ["templates are announced and fully processed before the interleaved data phase, so the templates in force are determinate",
                             "sFlow's ColTime (wall clock) is masked"]
         pipeline_model(ctx, thorough)
+        pipeline_liveness(ctx)
         for sw, exp in (("early", "NoUseAfterPut"), ("alias", "PublishedIsOwn"), ("close", "NoPanic")):
             d = dict(dg="MCDgrams2", bufs="b1, b2, b3, b4")
             d[sw] = "TRUE" if sw != "close" else "FALSE"
@@ -332,6 +350,12 @@ def check(ctx, want="C12"):
     ctx.tlc_model("PipelineMC", "mir.cfg", files={"mir.cfg": pipe_cfg(dg="MCDgrams2", bufs=mb, mirror="TRUE")}, timeout=1800, heap="12g")
     ctx.tlc_must_fail("PipelineMC", "mirdev.cfg", files={"mirdev.cfg": pipe_cfg(dg="MCDgrams2", bufs=mb, mirror="TRUE", mirown="TRUE")},
                       expect="NoUseAfterPut", workers=16)
+    # liveness with the mirror workers gone (they end at their first send error): the copies are dropped and the collector goes
+    # on decoding and publishing; a hand-over that WAITS for room in the mirror queue must be refuted
+    ctx.tlc_model("PipelineMC", "livemir.cfg", timeout=900, workers=8,
+                  files={"livemir.cfg": live_cfg(dg="MCDgrams2", bufs="b1, b2, b3, b4, b5", mirror="TRUE", mirdead="TRUE", workers="w1")})
+    ctx.tlc_must_fail("PipelineMC", "livemirdev.cfg", expect="temporal", workers=8,
+                      files={"livemirdev.cfg": live_cfg(dg="MCDgrams2", bufs="b1, b2, b3, b4, b5", mirror="TRUE", mirdead="TRUE", mirblocks="TRUE", workers="w1")})
     if want == "C12":
         parallel_stage(ctx, thorough)
         sched_stage(ctx, thorough)
